@@ -102,6 +102,16 @@ def chash(*parts):
     return int(hashlib.sha1(" ".join(str(p) for p in parts).encode()).hexdigest()[:15], 16)
 
 
+def write_start_h5_rank3(path, n, values):
+    """start file in the older layout [records][n][n]: three records, record r = values * (1 + r/4)"""
+    import array
+    raw = path + ".raw"
+    with open(raw, "wb") as f:
+        array.array("f", values).tofile(f)
+    subprocess.run([build.build_h5json(), "--write3", path, str(n), raw], check=True)
+    os.remove(raw)
+
+
 def write_start_h5(path, n, values):
     """minimal Inovesa start file with /PhaseSpace/data = values (n*n floats, row = position index)"""
     import array
